@@ -72,6 +72,12 @@ def gen_decisions():
     return r.returncode == 0, r.stdout.strip()
 
 
+def gen_arith():
+    """translate the checksum methods of /repo/src/checksum.rs into Lean (tools/rs2lean_arith.py)"""
+    r = run([sys.executable, os.path.join(VERIF, "tools", "rs2lean_arith.py")])
+    return r.returncode == 0, r.stdout.strip()
+
+
 def lake_build(modules):
     """Returns (ok, output, failing theorem/decl names)."""
     with Lock("lake"):
@@ -337,6 +343,10 @@ def check(pid, tier, replay=None):
     ok, out = gen_decisions()
     if not ok:
         broken.append(f"Copia.Gen.Decisions (translator: {out})")
+    if pid in ("C16", "C17"):
+        ok, out = gen_arith()
+        if not ok:
+            broken.append(f"Copia.Gen.Checksum (translator: {out}) — theorems C17.source_*_is_model no longer check")
     # 2. proofs
     ok, out, failing = lake_build(cfg["modules"])
     proofs_ok = ok
@@ -440,7 +450,7 @@ def check(pid, tier, replay=None):
             "axioms used by the property theorems: " + ", ".join(sorted({a for v in thms.values() for a in v}) or ["none"]),
             "no native_decide / bv_decide / sorry / own axioms (source audit + #print axioms on every theorem)",
             "hand-written Lean model tied to the Rust code by the correspondence run of this check (generator quality bounds what it sees)",
-            "tools/gen_constants.py (regex extraction of constants from /repo into Copia/Gen/Constants.lean)", "tools/rs2lean.py (translator: Fingerprint::same, reconcile_path, needs_transfer, cas_decide → Copia/Gen/Decisions.lean; proved equal to the hand models in Lemmas/GenEq)",
+            "tools/gen_constants.py (regex extraction of constants from /repo into Copia/Gen/Constants.lean)", "tools/rs2lean.py (translator: Fingerprint::same, reconcile_path, needs_transfer, cas_decide → Copia/Gen/Decisions.lean; proved equal to the hand models in Lemmas/GenEq)", "tools/rs2lean_arith.py (translator: both new/roll/push/digest of src/checksum.rs → Copia/Gen/Checksum.lean; proved equal to Model/Checksum in Lemmas/GenEqChecksum)",
         ] + cfg.get("trusted_base", []),
         "theorems": {k: v for k, v in sorted(thms.items())},
         "evaluations": corr.get("evaluations", 0),
@@ -593,7 +603,8 @@ def bb_runner(pid, tier, seed, rundir, cfg, search_more=False):
                 res[kk] = res.get(kk, 0) + r.get(kk, 0)
         if res["violations"] or not res["broken"]:
             break
-    shutil.rmtree("/var/tmp/copia-bbox", ignore_errors=True)
+    import bbox as _bbox
+    shutil.rmtree(_bbox.BBOX_BASE, ignore_errors=True)
     return res
 
 
